@@ -5,8 +5,8 @@ cd "$(dirname "$0")/.."
 for seed in "$@"; do
   for i in $(seq -w 1 20); do
     out=$(VERIF_SEED=$seed ./check C$i --tier $tier --no-evidence 2>&1); code=$?
-    echo "$out" | grep -E "^(VIOLATION|  detail|INCONCLUSIVE|KNOWN|C[0-9]+ )" | cut -c1-330
-    if ! echo "$out" | grep -qE "^C[0-9]+ (HELD|VIOLATED|INCONCLUSIVE)"; then
+    echo "$out" | grep -a -E "^(VIOLATION|  detail|INCONCLUSIVE|KNOWN|C[0-9]+ )" | cut -c1-330
+    if ! echo "$out" | grep -a -qE "^C[0-9]+ (HELD|VIOLATED|INCONCLUSIVE)"; then
       echo "C$i NO-VERDICT exit=$code tier=$tier seed=$seed -- last lines:"; echo "$out" | tail -15 | cut -c1-300
     fi
   done
